@@ -91,6 +91,13 @@ pub enum Action {
 	NonPemBody,
 	/// certificate download: a valid leaf followed by a damaged second PEM block (Content-Length correct)
 	DamagedChain,
+	/// certificate download: the right certificates, issuer(s) first and the leaf last (RFC 8555 7.4.2 asks for the leaf first)
+	ReversedChain,
+	/// problem document of this type whose detail member is the empty string / is absent (both allowed by RFC 7807)
+	AcmeEmptyDetail(String),
+	AcmeNoDetail(String),
+	/// problem document of this type with a detail of ~6 kB of ASCII text and 3 subproblems
+	AcmeHugeDetail(String),
 	ForgetAccount,
 }
 
@@ -100,6 +107,9 @@ impl Action {
 			Action::Acme(t) => format!("acme({t})"),
 			Action::AcmeLongDetail(t, k) => format!("acmeLongDetail({t},{k})"),
 			Action::AcmeNoNonce(t) => format!("acmeNoNonce({t})"),
+			Action::AcmeEmptyDetail(t) => format!("acmeEmptyDetail({t})"),
+			Action::AcmeNoDetail(t) => format!("acmeNoDetail({t})"),
+			Action::AcmeHugeDetail(t) => format!("acmeHugeDetail({t})"),
 			Action::NonJson(c) => format!("nonJson({c})"),
 			Action::Empty(c) => format!("empty({c})"),
 			Action::MissingField(f) => format!("missingField({f})"),
@@ -182,6 +192,14 @@ pub struct CaPlan {
 	/// (both legal: names are case-insensitive, the list is a set)
 	#[serde(default)]
 	pub order_echo: String,
+	/// line ends of the certificate chain the CA serves: "" = LF (and a final LF) | crlf | no-final (LF, the last line unterminated):
+	/// RFC 7468 allows CRLF, CR or LF
+	#[serde(default)]
+	pub pem_eol: String,
+	/// plain-HTTP CA only: the host name the CA uses for itself in every URL it hands out ("" = 127.0.0.1), e.g. "LocalHost":
+	/// URLs are compared as the CA issued them, not in a normalised form
+	#[serde(default)]
+	pub host_alias: String,
 }
 
 fn default_true() -> bool {
@@ -213,6 +231,8 @@ impl Default for CaPlan {
 			retry_after: None,
 			chall_processing: vec![],
 			order_echo: String::new(),
+			pem_eol: String::new(),
+			host_alias: String::new(),
 		}
 	}
 }
